@@ -195,3 +195,49 @@ def hash_order_iterations(prog, fns):
                     and ("HashMap<" in st or "HashSet<" in st or "collections::hash" in p):
                 out.append((fn, b.where(bb), p))
     return out
+
+
+# ------------------------------------------------------------------ E2a label decoding
+def result_local(body, res):
+    """local holding the vector that is returned (inside Ok(..) / to_row_vector(..))"""
+    t = res.local(0)
+    out = set()
+    for a in alts(t):
+        x = a
+        if x[0] == "agg" and x[1].endswith("::Ok") and x[2]:
+            x = x[2][0]
+        elif x[0] == "agg" and x[1].endswith("::Err"):
+            continue
+        elif x[0] == "call" and x[1].endswith("FromResidual::from_residual"):
+            continue
+        while x[0] == "call" and x[1].endswith(("::to_row_vector", "::from_array", "::from_row_vector")) and x[2]:
+            x = x[2][0]
+        if x[0] == "phi":
+            out.add(x[1])
+        elif x[0] == "local":
+            out.add(x[1])
+    return out
+
+
+def root_local(body, o):
+    from props.C16 import root_local as rl
+    return rl(body, o)
+
+
+def label_stores(body, res, store_suffix=("BaseMatrix::set", "BaseVector::set")):
+    """(bb, value term) of every store into the returned vector"""
+    rls = result_local(body, res)
+    out = []
+    for bb, t in body.calls():
+        f = t.get("f")
+        if f and f["path"].endswith(store_suffix):
+            dest = root_local(body, t["args"][0])
+            if dest in rls:
+                out.append((bb, res.operand(t["args"][-1])))
+    return out
+
+
+def is_label_elem(t, table_pred):
+    """t is an element of the label table (or a join of such elements) with no arithmetic/conversion on the way"""
+    xs = alts(t)
+    return bool(xs) and all(x[0] == "idx" and table_pred(x[1]) for x in xs)
